@@ -57,7 +57,7 @@ CHECKS = {
    "storage is a stand-in (per-cache committed version + per-shard single-writer token); sequentially consistent interleavings of the shimmed operations; usage protocol of the shard (each With returns before Commit)",
    "stateless DFS over schedules of the real code under a controlled scheduler, iterative preemption bounding", "DESIGN.md §4 C11"),
  "C07": (True, "faultx", "fault_enumeration",
-   "For 24 (start state x batch) cases incl. the four validation rejections and an index whose construction fails: a counting run, then one run per fault point - every (bucket, kind in Put/Delete/ForEach/Scan/BucketOpen/TxBegin, ordinal) the batch issues (670 points) failing exactly that operation through the storage proxy installed with the verif accessor hook - and a run taking a crash image of the database file at every storage operation, at function-return and after commit (1011 images). Failed call: observation battery + raw bucket digest identical to before on the running instance and after reopen; successful call: equals the reference model; images before commit = state before, after commit = model after; storage use after transaction end is recorded instead of crashing.",
+   "For 26 (start state x batch) cases incl. the validation rejections, a 10000-point batch and an index whose construction fails: a counting run, then one run per fault point - every (bucket, kind in Put/Delete/ForEach/Scan/BucketOpen/TxBegin, ordinal) the batch issues (670 points) failing exactly that operation through the storage proxy installed with the verif accessor hook - and a run taking a crash image of the database file at every storage operation, at function-return and after commit (1203 images) - and one run per storage operation, reads included (1039 points, 143 of them issued by the calling goroutine), in which the process dies by a panic raised at that operation on the goroutine that issued the batch, so that the deferred functions between the operation and the caller run before the file is inspected. Failed call: observation battery + raw bucket digest identical to before on the running instance and after reopen; successful call: equals the reference model; images before commit and the file left by a death by panic = state before, after commit = model after; storage use after transaction end is recorded instead of crashing.",
    "Get cannot fail in the storage API; torn writes inside bbolt's own commit are trusted; goroutine interleavings inside a batch are those the real scheduler produced",
    "exhaustive enumeration of fault points and crash points of a write history on the real write path", "DESIGN.md §4 C07"),
  "C12": (True, "schedx", "model_checking",
